@@ -36,9 +36,10 @@ func runC20(c *core.Ctx) core.Meta {
 	for _, l := range levels {
 		pkgs = append(pkgs, l.pkg)
 	}
-	pkgs = append(pkgs, "nvidia/tracereader", "nvidia/nvidiaconfig")
+	pkgs = append(pkgs, "nvidia/tracereader", "nvidia/nvidiaconfig", "nvidia/runner")
 	c.Load(pkgs...)
 	c.BuildSSA()
+	checkEngineRunPrecededByWakeup(c)
 	checkFreeListFilledOnce(c, "R20.16", "The engine then runs dry with kernels unfinished and fewer warps executed than the trace holds.", 2, NewPkgInfo(c, "nvidia/gpu"), NewPkgInfo(c, "nvidia/sm"), NewPkgInfo(c, "nvidia/driver"))
 	// R20.13 messages are not reused between Sends (fresh.go)
 	checkMessagesFresh(c, "R20.13", []string{"nvidia/subcore", "nvidia/sm", "nvidia/gpu", "nvidia/driver"}, 6)
